@@ -207,6 +207,20 @@ impl Cx {
                         }
                     }
                 }
+                // `let next: fn(&Node<T>) -> Option<NodeId> = $next;` : a macro parameter used as a function
+                if let (Pat::Type(pt), Expr::Path(ip)) = (&l.pat, &*init.expr) {
+                    let mv = path_str(&ip.path);
+                    if ts(&pt.ty).replace(' ', "").starts_with("fn(&Node<T>)->Option<NodeId>") && mv.starts_with("MV_") {
+                        if let Pat::Ident(pi) = &*pt.pat {
+                            let term = format!("f_{}", &mv[3..]);
+                            if !self.fun_params.contains(&term) {
+                                self.fun_params.push(term.clone());
+                            }
+                            self.declare(&pi.ident.to_string(), Bnd::Fun { term });
+                            return self.stmts(rest, tail);
+                        }
+                    }
+                }
                 let (t, ty) = self.expr(&init.expr, &mut pres)?;
                 let declared = match &l.pat {
                     Pat::Type(pt) => unify(&ty_of(&pt.ty), &ty),
@@ -448,35 +462,83 @@ impl Cx {
             Expr::Match(m) => {
                 let mut pres = vec![];
                 let (s, sty) = self.expr(&m.expr, &mut pres)?;
-                let mut arms = vec![];
-                let mut ty = Ty::Never;
-                let mut alld = true;
+                // flatten or-patterns
+                let mut flat: Vec<(&Pat, Option<&Expr>, &Expr)> = vec![];
                 for arm in &m.arms {
                     let pats: Vec<&Pat> = match &arm.pat {
                         Pat::Or(o) => o.cases.iter().collect(),
                         p => vec![p],
                     };
                     for p in pats {
-                        let mut ps = String::new();
-                        let (c, aty, d) = self.branch(|cx| {
-                            cx.push();
-                            ps = cx.pat(p, &sty)?;
-                            let r = match (&arm.guard, &*arm.body) {
-                                (Some(_), _) => Err("match guard".to_string()),
-                                (None, Expr::Block(b)) => cx.block(&b.block, tail),
-                                (None, body) => cx.stmts(&[Stmt::Expr(body.clone(), None)], tail),
-                            };
-                            cx.pop();
-                            r
-                        })?;
-                        ty = unify(&ty, &aty);
-                        alld = alld && d;
-                        arms.push((ps, c));
+                        flat.push((p, arm.guard.as_ref().map(|(_, g)| &**g), &*arm.body));
                     }
                 }
-                Ok((wrap(pres, Code::Match(s, arms)), ty, alld))
+                let (c, ty, d) = self.match_seq(&s, &sty, &flat, tail)?;
+                Ok((wrap(pres, c), ty, d))
             }
             _ => Err(format!("ctrl on `{}`", ts(e))),
+        }
+    }
+
+    /// arms in order; an arm with a guard `p if g => b` becomes `p => if g then b else <rest>` with the remaining
+    /// arms compiled again for the fall-through
+    fn match_seq(&mut self, s: &str, sty: &Ty, arms: &[(&Pat, Option<&Expr>, &Expr)], tail: &Tail) -> R<(Code, Ty, bool)> {
+        if arms.is_empty() {
+            return Ok((Code::Panic("P_UNREACHABLE"), Ty::Never, true));
+        }
+        let first_guard = arms.iter().position(|a| a.1.is_some());
+        let body_code = |cx: &mut Cx, body: &Expr, tail: &Tail| -> R<(Code, Ty, bool)> {
+            match body {
+                Expr::Block(b) => cx.block(&b.block, tail),
+                other => cx.stmts(&[Stmt::Expr(other.clone(), None)], tail),
+            }
+        };
+        match first_guard {
+            None => {
+                let mut out = vec![];
+                let mut ty = Ty::Never;
+                let mut alld = true;
+                for (p, _, body) in arms {
+                    let mut ps = String::new();
+                    let (c, aty, d) = self.branch(|cx| {
+                        cx.push();
+                        ps = cx.pat(p, sty)?;
+                        let r = body_code(cx, body, tail);
+                        cx.pop();
+                        r
+                    })?;
+                    ty = unify(&ty, &aty);
+                    alld = alld && d;
+                    out.push((ps, c));
+                }
+                Ok((Code::Match(s.to_string(), out), ty, alld))
+            }
+            Some(0) => {
+                let (p, g, body) = arms[0];
+                let (rest, rty, rd) = self.match_seq(s, sty, &arms[1..], tail)?;
+                let mut ps = String::new();
+                let rest2 = rest.clone();
+                let (c, aty, d) = self.branch(|cx| {
+                    cx.push();
+                    ps = cx.pat(p, sty)?;
+                    let mut gp = vec![];
+                    let (gt, gty) = cx.expr(g.unwrap(), &mut gp)?;
+                    if gty != Ty::Bool || !gp.is_empty() {
+                        cx.pop();
+                        return Err("match guard with effects".to_string());
+                    }
+                    let r = body_code(cx, body, tail);
+                    cx.pop();
+                    let (bc, bty, bd) = r?;
+                    Ok((Code::If(gt, Box::new(bc), Box::new(rest2)), bty, bd))
+                })?;
+                Ok((Code::Match(s.to_string(), vec![(ps, c), ("_".into(), rest)]), unify(&aty, &rty), d && rd))
+            }
+            Some(k) => {
+                // unguarded arms before the first guard: not needed by the sources
+                let _ = k;
+                Err("match with a guard after unguarded arms".into())
+            }
         }
     }
 
@@ -539,16 +601,27 @@ impl Cx {
         })?;
         let exit = self.branch(|cx| cx.stmts(rest, tail))?;
         let other = if pat.starts_with("Some") { "None" } else { "_" };
-        let inner = Code::Match(
-            s,
-            vec![
-                (pat, Code::Match("fuel".into(), vec![("O".into(), Code::Raw("diverge".into())), ("S fuel'".into(), body.0)])),
-                (other.into(), exit.0),
-            ],
-        );
-        let fix_body = wrap(pres, inner);
+        // the fuel is consumed before any effect of an iteration: when evaluating the loop condition reads the
+        // arena the fuel test comes first, otherwise it comes after the (pure) condition said "continue"
+        let fix_body = if pres.is_empty() {
+            Code::Match(
+                s,
+                vec![
+                    (pat, Code::Match("fuel".into(), vec![("O".into(), Code::Raw("diverge".into())), ("S fuel'".into(), body.0)])),
+                    (other.into(), exit.0),
+                ],
+            )
+        } else {
+            Code::Match(
+                "fuel".into(),
+                vec![("O".into(), Code::Raw("diverge".into())), ("S fuel'".into(), wrap(pres, Code::Match(s, vec![(pat, body.0), (other.into(), exit.0)])))],
+            )
+        };
         let plist = params.iter().map(|(n, t)| format!("({} : {})", n, t.coq())).collect::<Vec<_>>().join(" ");
-        let rty = self.cur.coq_ret();
+        let rty = match tail {
+            Tail::Value => exit.1.clone(),
+            _ => self.cur.coq_ret(),
+        };
         self.lifted.push(format!("Fixpoint {} (dbg : bool) (fuel : nat) {} {{struct fuel}} : M {} :=\n{}.\n", lname, plist, rty.coq(), fix_body.print(2)));
         self.scopes = saved_scopes;
         let a = self.gensym("a_");
